@@ -188,6 +188,13 @@ pub fn parse_val(s: &str) -> Dynamic {
     } else { Dynamic::UNIT }
 }
 
+/// a stable choice among the equivalent spellings of an API call: a function of the op's text only
+fn variant(f: &[&str]) -> usize {
+    let mut h: u64 = 0xcbf29ce484222325;
+    for part in f { for b in part.bytes() { h ^= b as u64; h = h.wrapping_mul(0x100000001b3); } h ^= 0xff; h = h.wrapping_mul(0x100000001b3); }
+    (h >> 7) as usize
+}
+
 fn res_b(r: casbin::Result<bool>) -> String {
     match r { Ok(b) => bool_s(b).to_string(), Err(e) => format!("err:{}", err_kind(&e)) }
 }
@@ -347,11 +354,57 @@ impl EnfWorld {
         let r = catch(|| -> String {
             let sv = |s: &str| -> Vec<String> { dec_list(s) };
             match f[0] {
-                "e.add" => res_b(rt.block_on(async { with_e!(e, x => x.add_policy_internal(f[1], f[2], sv(f[3])).await) })),
-                "e.addm" => res_b(rt.block_on(async { with_e!(e, x => x.add_policies_internal(f[1], f[2], dec_lists(f[3])).await) })),
-                "e.rm" => res_b(rt.block_on(async { with_e!(e, x => x.remove_policy_internal(f[1], f[2], sv(f[3])).await) })),
-                "e.rmm" => res_b(rt.block_on(async { with_e!(e, x => x.remove_policies_internal(f[1], f[2], dec_lists(f[3])).await) })),
-                "e.rmf" => res_b(rt.block_on(async { with_e!(e, x => x.remove_filtered_policy_internal(f[1], f[2], f[3].parse().unwrap(), sv(f[4])).await.map(|r| r.0)) })),
+                // The five management calls go through the public API in all its spellings: the plain call (`add_policy`), the
+                // named variant (`add_named_policy`), the RBAC helper where one exists (`add_permission_for_user`,
+                // `add_role_for_user`, ...) or the internal function itself. Which one is a function of the op text, so a
+                // replay makes the same choice; all of them are specified to do the same thing.
+                "e.add" => { let (sec, pt, r) = (f[1], f[2], sv(f[3])); let v = variant(f);
+                    res_b(rt.block_on(async { with_e!(e, x => match (sec, pt == sec, v % 4) {
+                        ("p", true, 0) => x.add_policy(r).await,
+                        ("p", _, 1) => x.add_named_policy(pt, r).await,
+                        ("p", true, 2) if !r.is_empty() => x.add_permission_for_user(&r[0].clone(), r[1..].to_vec()).await,
+                        ("g", true, 0) => x.add_grouping_policy(r).await,
+                        ("g", _, 1) => x.add_named_grouping_policy(pt, r).await,
+                        ("g", true, 2) if r.len() == 2 || r.len() == 3 => x.add_role_for_user(&r[0].clone(), &r[1].clone(), r.get(2).cloned().as_deref()).await,
+                        _ => x.add_policy_internal(sec, pt, r).await }) })) }
+                "e.addm" => { let (sec, pt, rs) = (f[1], f[2], dec_lists(f[3])); let v = variant(f);
+                    let same_user = !rs.is_empty() && rs.iter().all(|r| !r.is_empty() && r[0] == rs[0][0]);
+                    let roles_shape = same_user && rs.iter().all(|r| r.len() == rs[0].len() && (r.len() == 2 || (r.len() == 3 && r[2] == rs[0][2])));
+                    res_b(rt.block_on(async { with_e!(e, x => match (sec, pt == sec, v % 4) {
+                        ("p", true, 0) => x.add_policies(rs).await,
+                        ("p", _, 1) => x.add_named_policies(pt, rs).await,
+                        ("p", true, 2) if same_user => x.add_permissions_for_user(&rs[0][0].clone(), rs.iter().map(|r| r[1..].to_vec()).collect()).await,
+                        ("g", true, 0) => x.add_grouping_policies(rs).await,
+                        ("g", _, 1) => x.add_named_grouping_policies(pt, rs).await,
+                        ("g", true, 2) if roles_shape => x.add_roles_for_user(&rs[0][0].clone(), rs.iter().map(|r| r[1].clone()).collect(), rs[0].get(2).cloned().as_deref()).await,
+                        _ => x.add_policies_internal(sec, pt, rs).await }) })) }
+                "e.rm" => { let (sec, pt, r) = (f[1], f[2], sv(f[3])); let v = variant(f);
+                    res_b(rt.block_on(async { with_e!(e, x => match (sec, pt == sec, v % 4) {
+                        ("p", true, 0) => x.remove_policy(r).await,
+                        ("p", _, 1) => x.remove_named_policy(pt, r).await,
+                        ("p", true, 2) if !r.is_empty() => x.delete_permission_for_user(&r[0].clone(), r[1..].to_vec()).await,
+                        ("g", true, 0) => x.remove_grouping_policy(r).await,
+                        ("g", _, 1) => x.remove_named_grouping_policy(pt, r).await,
+                        ("g", true, 2) if r.len() == 2 || r.len() == 3 => x.delete_role_for_user(&r[0].clone(), &r[1].clone(), r.get(2).cloned().as_deref()).await,
+                        _ => x.remove_policy_internal(sec, pt, r).await }) })) }
+                "e.rmm" => { let (sec, pt, rs) = (f[1], f[2], dec_lists(f[3])); let v = variant(f);
+                    res_b(rt.block_on(async { with_e!(e, x => match (sec, pt == sec, v % 3) {
+                        ("p", true, 0) => x.remove_policies(rs).await,
+                        ("p", _, 1) => x.remove_named_policies(pt, rs).await,
+                        ("g", true, 0) => x.remove_grouping_policies(rs).await,
+                        ("g", _, 1) => x.remove_named_grouping_policies(pt, rs).await,
+                        _ => x.remove_policies_internal(sec, pt, rs).await }) })) }
+                "e.rmf" => { let (sec, pt, idx, vals) = (f[1], f[2], f[3].parse::<usize>().unwrap(), sv(f[4])); let v = variant(f);
+                    res_b(rt.block_on(async { with_e!(e, x => match (sec, pt == sec, v % 4) {
+                        ("p", true, 0) => x.remove_filtered_policy(idx, vals).await,
+                        ("p", _, 1) => x.remove_filtered_named_policy(pt, idx, vals).await,
+                        ("p", true, 2) if idx == 0 && vals.len() == 1 => x.delete_permissions_for_user(&vals[0].clone()).await,
+                        ("p", true, 2) if idx == 1 => x.delete_permission(vals).await,
+                        ("g", true, 0) => x.remove_filtered_grouping_policy(idx, vals).await,
+                        ("g", _, 1) => x.remove_filtered_named_grouping_policy(pt, idx, vals).await,
+                        ("g", true, 2) if idx == 0 && vals.len() == 1 => x.delete_roles_for_user(&vals[0].clone(), None).await,
+                        ("g", true, 2) if idx == 0 && vals.len() == 3 && vals[1].is_empty() => x.delete_roles_for_user(&vals[0].clone(), Some(&vals[2].clone())).await,
+                        _ => x.remove_filtered_policy_internal(sec, pt, idx, vals).await.map(|r| r.0) }) })) }
                 "e.deluser" => res_b(rt.block_on(async { with_e!(e, x => x.delete_user(&unesc(f[1])).await) })),
                 "e.delrole" => res_b(rt.block_on(async { with_e!(e, x => x.delete_role(&unesc(f[1])).await) })),
                 "e.delperm" => res_b(rt.block_on(async { with_e!(e, x => x.delete_permission(sv(f[1])).await) })),
@@ -447,10 +500,30 @@ impl EnfWorld {
                     out
                 }
                 "e.pol" => format!("{} {}", enc_lists(&with_e!(&*e, x => x.get_all_policy())), enc_lists(&with_e!(&*e, x => x.get_all_grouping_policy()))),
-                "e.get" => enc_lists(&with_e!(&*e, x => x.get_model().get_policy(f[1], f[2]))),
-                "e.has" => bool_s(with_e!(&*e, x => x.get_model().has_policy(f[1], f[2], sv(f[3])))).to_string(),
-                "e.getf" => enc_lists(&with_e!(&*e, x => x.get_model().get_filtered_policy(f[1], f[2], f[3].parse().unwrap(), sv(f[4])))),
-                "e.vals" => enc_list(&with_e!(&*e, x => x.get_model().get_values_for_field_in_policy(f[1], f[2], f[3].parse().unwrap()))),
+                // the read side likewise: plain call, named variant, RBAC helper or the model's own function
+                "e.get" => { let (sec, pt) = (f[1], f[2]); let v = variant(f);
+                    enc_lists(&with_e!(&*e, x => match (sec, pt == sec, v % 3) {
+                        ("p", true, 0) => x.get_policy(), ("p", _, 1) => x.get_named_policy(pt),
+                        ("g", true, 0) => x.get_grouping_policy(), ("g", _, 1) => x.get_named_grouping_policy(pt),
+                        _ => x.get_model().get_policy(sec, pt) })) }
+                "e.has" => { let (sec, pt, r) = (f[1], f[2], sv(f[3])); let v = variant(f);
+                    bool_s(with_e!(&*e, x => match (sec, pt == sec, v % 4) {
+                        ("p", true, 0) => x.has_policy(r), ("p", _, 1) => x.has_named_policy(pt, r),
+                        ("p", true, 2) if !r.is_empty() => x.has_permission_for_user(&r[0].clone(), r[1..].to_vec()),
+                        ("g", true, 0) => x.has_grouping_policy(r), ("g", _, 1) => x.has_grouping_named_policy(pt, r),
+                        _ => x.get_model().has_policy(sec, pt, r) })).to_string() }
+                "e.getf" => { let (sec, pt, idx, vals) = (f[1], f[2], f[3].parse::<usize>().unwrap(), sv(f[4])); let v = variant(f);
+                    enc_lists(&with_e!(&*e, x => match (sec, pt == sec, v % 3) {
+                        ("p", true, 0) => x.get_filtered_policy(idx, vals), ("p", _, 1) => x.get_filtered_named_policy(pt, idx, vals),
+                        ("g", true, 0) => x.get_filtered_grouping_policy(idx, vals), ("g", _, 1) => x.get_filtered_named_grouping_policy(pt, idx, vals),
+                        _ => x.get_model().get_filtered_policy(sec, pt, idx, vals) })) }
+                "e.vals" => { let (sec, pt, idx) = (f[1], f[2], f[3].parse::<usize>().unwrap()); let v = variant(f);
+                    enc_list(&with_e!(&*e, x => match (sec, idx, pt == sec, v % 3) {
+                        ("p", 0, true, 0) => x.get_all_subjects(), ("p", 0, _, 1) => x.get_all_named_subjects(pt),
+                        ("p", 1, true, 0) => x.get_all_objects(), ("p", 1, _, 1) => x.get_all_named_objects(pt),
+                        ("p", 2, true, 0) => x.get_all_actions(), ("p", 2, _, 1) => x.get_all_named_actions(pt),
+                        ("g", 1, true, 0) => x.get_all_roles(), ("g", 1, _, 1) => x.get_all_named_roles(pt),
+                        _ => x.get_model().get_values_for_field_in_policy(sec, pt, idx) })) }
                 "e.roles" => enc_list(&sorted(with_e!(&*e, x => x.get_roles_for_user(&unesc(f[1]), dom_opt(f[2]).as_deref())))),
                 "e.users" => enc_list(&sorted(with_e!(&*e, x => x.get_users_for_role(&unesc(f[1]), dom_opt(f[2]).as_deref())))),
                 "e.hasrole" => bool_s(with_e!(&*e, x => x.has_role_for_user(&unesc(f[1]), &unesc(f[2]), dom_opt(f[3]).as_deref()))).to_string(),
